@@ -40,7 +40,7 @@ type c19Node struct {
 	Title    string     `json:"title,omitempty"`
 }
 
-var c19Names = []string{"A", "B", "C", "a", "b", "Z", "\u00e9", "e\u0301", "<", "&", "", " ", "a b", "\"", "\\", "\u2028", "0", "10", "9", "~", "/", "type", "properties"}
+var c19Names = []string{"A", "B", "C", "a", "b", "Z", "\u00e9", "e\u0301", "<", "&", "", " ", "a b", "\"", "\\", "\u2028", "0", "10", "9", "~", "/", "type", "properties", "\x01", "del\x7f", "\v", "\U0001f600"}
 
 func (n *c19Node) build() *jsonschema.Schema {
 	s := &jsonschema.Schema{Title: n.Title}
